@@ -4,7 +4,7 @@
  */
 #ifndef SPEC_SPEC_H
 #define SPEC_SPEC_H
-#include <stdint.h>
+
 
 /* ---------------------------------------------------------------- RFC 8210 section 6: timer ranges */
 #define SPEC_REFRESH_MIN 1u
@@ -24,25 +24,25 @@
 #define SPEC_IVM_ACCEPT_ANY 1
 #define SPEC_IVM_DEFAULT_MIN_MAX 2
 #define SPEC_IVM_IGNORE_ON_FAILURE 3
-#define SPEC_IN_RANGE(v, mn, mx) ((uint32_t)(v) >= (mn) && (uint32_t)(v) <= (mx))
+#define SPEC_IN_RANGE(v, mn, mx) ((unsigned int)(v) >= (mn) && (unsigned int)(v) <= (mx))
 /* the value an interval must have after an End of Data carrying `sent`, property C17 */
 #define SPEC_INTERVAL(mode, old, sent, mn, mx)                                                         \
-	((mode) == SPEC_IVM_ACCEPT_ANY ? (uint32_t)(sent)                                              \
+	((mode) == SPEC_IVM_ACCEPT_ANY ? (unsigned int)(sent)                                              \
 	 : (mode) == SPEC_IVM_DEFAULT_MIN_MAX                                                          \
-		 ? ((uint32_t)(sent) < (mn) ? (mn) : (uint32_t)(sent) > (mx) ? (mx) : (uint32_t)(sent)) \
-	 : (mode) == SPEC_IVM_IGNORE_ON_FAILURE ? (SPEC_IN_RANGE(sent, mn, mx) ? (uint32_t)(sent) : (uint32_t)(old)) \
-						: (uint32_t)(old))
+		 ? ((unsigned int)(sent) < (mn) ? (mn) : (unsigned int)(sent) > (mx) ? (mx) : (unsigned int)(sent)) \
+	 : (mode) == SPEC_IVM_IGNORE_ON_FAILURE ? (SPEC_IN_RANGE(sent, mn, mx) ? (unsigned int)(sent) : (unsigned int)(old)) \
+						: (unsigned int)(old))
 
 /* ---------------------------------------------------------------- bit strings (RFC 6811 covering) */
 /* mask with bits [from, from+n) of a 32-bit word set, bit 0 = most significant; 0 <= from, n, from+n <= 32 */
-#define SPEC_MASK32(from, n) ((n) == 0 ? 0u : (uint32_t)((0xFFFFFFFFu << (32 - (n))) >> (from)))
+#define SPEC_MASK32(from, n) ((n) == 0 ? 0u : (unsigned int)((0xFFFFFFFFu << (32 - (n))) >> (from)))
 /* the n leading bits of a 32-bit word (others zero), 0 <= n <= 32 */
-#define SPEC_TOP32(a, n) ((n) == 0 ? 0u : ((uint32_t)(a) & (0xFFFFFFFFu << (32 - (n)))))
+#define SPEC_TOP32(a, n) ((n) == 0 ? 0u : ((unsigned int)(a) & (0xFFFFFFFFu << (32 - (n)))))
 /* bit k (0 = most significant) */
-#define SPEC_BIT32(a, k) (((uint32_t)(a) >> (31 - (k))) & 1u)
+#define SPEC_BIT32(a, k) (((unsigned int)(a) >> (31 - (k))) & 1u)
 /* word w (0..3) of the n leading bits of a 128-bit value held in 4 host-order words, 0 <= n <= 128 */
 #define SPEC_TOP128_W(a, n, w)                                                                         \
-	((n) >= 32u * ((w) + 1) ? (uint32_t)(a)[w] : (n) <= 32u * (w) ? 0u : SPEC_TOP32((a)[w], (n) - 32u * (w)))
+	((n) >= 32u * ((w) + 1) ? (unsigned int)(a)[w] : (n) <= 32u * (w) ? 0u : SPEC_TOP32((a)[w], (n) - 32u * (w)))
 #define SPEC_BIT128(a, k) SPEC_BIT32((a)[(k) / 32], (k) % 32)
 
 #endif
